@@ -755,7 +755,7 @@ func TestB2C08Hostile(t *testing.T) {
 	names := []Name{"ASCII85Decode", "ASCIIHexDecode", "RunLengthDecode", "FlateDecode", "LZWDecode", "CCITTFaxDecode", "DCTDecode", "JBIG2Decode"}
 	dicts := []Dict{nil, {}, {"Predictor": Integer(12), "Columns": Integer(4)}, {"Predictor": Integer(2), "Columns": Integer(3), "Colors": Integer(3), "BitsPerComponent": Integer(4)},
 		{"Predictor": Integer(15), "Columns": Integer(1 << 30), "Colors": Integer(1 << 20), "BitsPerComponent": Integer(16)}, {"Columns": Integer(-1), "Rows": Integer(-5), "K": Integer(-1)},
-		{"Columns": Integer(100000), "Rows": Integer(100000), "K": Integer(0)}, {"EarlyChange": Integer(0)}, {"Predictor": Name("x"), "Columns": String("y")}}
+		{"Columns": Integer(100000), "Rows": Integer(100000), "K": Integer(0)}, {"Columns": Integer(1048576), "Rows": Integer(65536), "K": Integer(-1)}, {"Columns": Integer(1048576), "Rows": Integer(129), "K": Integer(-1)}, {"EarlyChange": Integer(0)}, {"Predictor": Name("x"), "Columns": String("y")}}
 	var bodies [][]byte
 	seedData := c02Data(600, 0)
 	for _, f := range []Filter{FilterASCII85{}, FilterASCIIHex{}, FilterRunLength{}, FilterFlate{}, FilterLZW{OffByOne: true}, FilterFlate{Predictor: FlatePredictorPNGUp, Columns: 4}} {
@@ -832,6 +832,7 @@ func TestB2C08Hostile(t *testing.T) {
 		w(0xFF, 0xD9)
 		bodies = append(bodies, b.Bytes())
 	}
+	bodies = append(bodies, bytes.Repeat([]byte{0xff}, 2048))
 	bodies = append(bodies, nil, []byte{0}, bytes.Repeat([]byte{0xff}, 300), bytes.Repeat([]byte{0x80, 0x00}, 200), []byte("~>"), []byte(">"), bytes.Repeat([]byte{0x00, 0x10, 0x01}, 100))
 	for _, name := range names {
 		for _, d := range dicts {
@@ -848,12 +849,15 @@ func TestB2C08Hostile(t *testing.T) {
 				}
 				cases++
 				started := time.Now()
+				produced := int64(0)
 				func() {
 					defer func() {
 						if r := recover(); r != nil {
 							t.Errorf("B2-FAIL panic %s %s body#%d: %v", name, AsString(d), bi, r)
 						}
-						if el := time.Since(started); el > 3*time.Second {
+						// time bound for decodes that produce little output (large images legitimately
+						// take longer, and the machine may be loaded)
+						if el := time.Since(started); el > 3*time.Second && produced < 4<<20 {
 							t.Errorf("B2-FAIL slow %s %s body#%d (%d bytes): %v", name, AsString(d), bi, len(body), el)
 						}
 					}()
@@ -869,8 +873,9 @@ func TestB2C08Hostile(t *testing.T) {
 						}
 						return
 					}
-					n, err := io.Copy(io.Discard, io.LimitReader(r, 1<<27))
-					if n >= 1<<27 {
+					n, err := io.Copy(io.Discard, io.LimitReader(r, 1<<26))
+					produced = n
+					if n >= 1<<26 {
 						t.Errorf("B2-FAIL unbounded-output %s %s body#%d", name, AsString(d), bi)
 					}
 					if err != nil && !IsMalformed(err) {
